@@ -213,7 +213,10 @@ def ref(t, seed):
     if k == "gram":
         r = ref(t[2], seed)
         M = r.mat
-        m = {"HA": M.conj().T @ M, "TA": M.T @ M, "AH": M @ M.conj().T, "AT": M @ M.T}[t[1]]
+        if t[1] in ("AA", "AAA"):  # the SAME operator object used two / three times in one product
+            m = M @ M if t[1] == "AA" else M @ M @ M
+        else:
+            m = {"HA": M.conj().T @ M, "TA": M.T @ M, "AH": M @ M.conj().T, "AT": M @ M.T}[t[1]]
         return Ref(m, r.dtypes)
     if k == "T":
         r = ref(t[1], seed)
@@ -273,6 +276,8 @@ def shape_of(t):
         return (s[1], s[0])
     if k == "gram":
         s = shape_of(t[2])
+        if t[1] in ("AA", "AAA") and s[0] != s[1]:
+            raise Inadmissible("not square")
         return (s[1], s[1]) if t[1] in ("HA", "TA") else (s[0], s[0])
     if k == "slice":
         s = shape_of(t[1])
